@@ -212,6 +212,62 @@ def omp_inventory():
     return out
 
 
+C_TYPES = r'(?:unsigned\s+|signed\s+|const\s+|static\s+|register\s+)*(?:word|rci_t|wi_t|int|long|unsigned|size_t|char|double|float|mzd_t|mzp_t|uint64_t|int64_t|uint32_t|int32_t|__m128i|void)\b'
+DECL_RE = re.compile(C_TYPES + r'(?:\s+const\b|\s*\*|\s+)*\s*([A-Za-z_]\w*)\s*(?:=(?!=)|;|\[|,)')
+WRITE_RE = re.compile(r'(?<![\w.>])([A-Za-z_]\w*)\s*((?:\[[^\]]*\]\s*)*)(?:=(?!=)|\+=|-=|\*=|/=|%=|\^=|\|=|&=|<<=|>>=|\+\+|--)')
+PREINC_RE = re.compile(r'(?:\+\+|--)\s*([A-Za-z_]\w*)')
+
+
+def matching_brace(text, i):
+    depth = 0
+    for j in range(i, len(text)):
+        if text[j] == '{':
+            depth += 1
+        elif text[j] == '}':
+            depth -= 1
+            if depth == 0:
+                return j
+    raise TranslateError('unbalanced braces after offset %d' % i)
+
+
+def omp_loops():
+    """for every `#pragma omp parallel for`: the loop variable, the names in its private(...) clause and the names
+    declared OUTSIDE the loop body that the body assigns (directly or element-wise).  The proofs of order-independence
+    (Sched.parfor_perm_invariant) assume each iteration writes only its own state: every such name must be private."""
+    out = []
+    d = os.path.join(REPO, 'm4ri')
+    for f in sorted(os.listdir(d)):
+        if not f.endswith('.c'):
+            continue
+        raw = open(os.path.join(d, f)).read()
+        text = re.sub(r'/\*.*?\*/', lambda m: re.sub(r'[^\n]', ' ', m.group(0)), raw, flags=re.S)
+        text = re.sub(r'//[^\n]*', '', text)
+        for m in re.finditer(r'^[ \t]*#[ \t]*pragma[ \t]+omp[ \t]+parallel[ \t]+for\b((?:[^\n]*\\\n)*[^\n]*)\n', text, re.M):
+            line = text.count('\n', 0, m.start()) + 1
+            clauses = re.sub(r'\\\n', ' ', m.group(1))
+            priv = []
+            for c in re.finditer(r'\b(?:private|firstprivate|lastprivate)\s*\(([^)]*)\)', clauses):
+                priv += [x.strip() for x in c.group(1).split(',') if x.strip()]
+            rest = text[m.end():]
+            fm = re.match(r'(?:[ \t]*#[^\n]*\n|\s)*for\s*\(\s*(?:' + C_TYPES + r'(?:\s+const\b|\s+)*)?\s*([A-Za-z_]\w*)\s*=', rest)
+            if not fm:
+                raise TranslateError('%s:%d: no for loop after omp parallel for' % (f, line))
+            var = fm.group(1)
+            ob = rest.index('{', fm.end())
+            # the for header must close before the brace
+            cb = matching_brace(rest, ob)
+            body = rest[ob + 1:cb]
+            declared = set(DECL_RE.findall(body))
+            written = set()
+            for w in WRITE_RE.finditer(body):
+                written.add(w.group(1))
+            for w in PREINC_RE.finditer(body):
+                written.add(w.group(1))
+            outer = sorted(x for x in written if x not in declared and x != var)
+            out.append((f, line, var, sorted(priv), outer))
+    return out
+
+
 def lean_str(s):
     return '"' + s.replace('\\', '\\\\').replace('"', '\\"') + '"'
 
@@ -265,6 +321,7 @@ def regenerate():
     thin = c_expr_to_lean(m3[0], env)
     inv = alloc_inventory()
     omp = omp_inventory()
+    loops = omp_loops()
     L = []
     L.append('/- GENERATED by vlib/translate.py from /repo/m4ri on every check. Do not edit. -/')
     L.append('set_option linter.unusedVariables false')
@@ -277,18 +334,28 @@ def regenerate():
     L.append('def mulNaiveThin : Nat := %s' % thin)
     L.append('/-- strassen.c `closer(a, cutoff)` -/')
     L.append('def closer (a cutoff : Nat) : Bool := decide %s' % closer)
-    L.append('/-- allocation call sites: (file, line, callee, verdict) -/')
-    L.append('def allocSites : List (String × Nat × String × String) := [')
-    L.append(',\n'.join('  (%s, %d, %s, %s)' % (lean_str(f), ln, lean_str(c), lean_str(v)) for f, ln, c, v in inv))
-    L.append(']')
-    L.append('/-- OpenMP pragmas: (file, line, text) -/')
-    L.append('def ompPragmas : List (String × Nat × String) := [')
-    L.append(',\n'.join('  (%s, %d, %s)' % (lean_str(f), ln, lean_str(t)) for f, ln, t in omp))
-    L.append(']')
     L.append('end M4ri.Gen')
+    I = []
+    I.append('/- GENERATED by vlib/translate.py from /repo/m4ri on every check. Do not edit. -/')
+    I.append('namespace M4ri.Gen')
+    I.append('/-- allocation call sites: (file, line, callee, verdict) -/')
+    I.append('def allocSites : List (String × Nat × String × String) := [')
+    I.append(',\n'.join('  (%s, %d, %s, %s)' % (lean_str(f), ln, lean_str(c), lean_str(v)) for f, ln, c, v in inv))
+    I.append(']')
+    I.append('/-- OpenMP pragmas: (file, line, text) -/')
+    I.append('def ompPragmas : List (String × Nat × String) := [')
+    I.append(',\n'.join('  (%s, %d, %s)' % (lean_str(f), ln, lean_str(t)) for f, ln, t in omp))
+    I.append(']')
+    I.append('/-- `omp parallel for` loops: (file, line, loop variable, private names, names declared outside the body that the body assigns) -/')
+    I.append('def ompLoops : List (String × Nat × String × List String × List String) := [')
+    I.append(',\n'.join('  (%s, %d, %s, [%s], [%s])' % (lean_str(f), ln, lean_str(v), ', '.join(map(lean_str, p)), ', '.join(map(lean_str, w)))
+                        for f, ln, v, p, w in loops))
+    I.append(']')
+    I.append('end M4ri.Gen')
     changed = write_if_changed(os.path.join(GEN, 'Params.lean'), '\n'.join(L) + '\n')
+    changed = write_if_changed(os.path.join(GEN, 'Inventory.lean'), '\n'.join(I) + '\n') or changed
     return dict(changed=changed, constants=consts, formulas=forms, alloc_sites=len(inv),
-                unchecked_sites=[s for s in inv if s[3] == 'unchecked'], omp_pragmas=len(omp), obligations=0)
+                unchecked_sites=[s for s in inv if s[3] == 'unchecked'], omp_pragmas=len(omp), omp_loops=['%s:%d var=%s private=%s outer-written=%s' % l for l in loops], obligations=0)
 
 
 if __name__ == '__main__':
